@@ -190,6 +190,19 @@ pub fn check_corners(src: &str, acc: &mut Acc, corners: &[(&'static str, Dialect
     any_ok
 }
 
+/// The lattice is walked for an input that some dialect accepts. The four named corners do not contain the middle type level
+/// (`ParseOnly`), so the maxima of the two other type levels are probed as well: if acceptance is monotone in the switches,
+/// some dialect of a type level accepts iff the all-switches dialect of that level does.
+fn accepted_somewhere_else(src: &str, acc: &mut Acc) -> bool {
+    for types in [1u32, 0u32] {
+        acc.parses += 1;
+        if let Parsed::Ok(_) = check_one(src, &dialect_bits(127, types)) {
+            return true;
+        }
+    }
+    false
+}
+
 /// Full lattice: 7 switches x 3 type levels; every single-switch increase must preserve acceptance and tree.
 pub fn check_lattice(src: &str, acc: &mut Acc) {
     let mut res: Vec<Option<String>> = Vec::with_capacity(384);
@@ -253,7 +266,7 @@ fn enumerate(alphabet: &[&str], prefix: &str, first: Option<usize>, len: usize, 
             eprintln!("INPUT {:?}", buf);
         }
         let ok = check_corners(&buf, acc, &corners);
-        if ok && lattice {
+        if lattice && (ok || accepted_somewhere_else(&buf, acc)) {
             check_lattice(&buf, acc);
         }
         // increment (position 0 fixed if `first` given)
@@ -304,7 +317,7 @@ pub fn cmd() {
                         eprintln!("INPUT {:?}", s);
                     }
                     let ok = check_corners(s, &mut acc, &corners);
-                    if ok && lattice {
+                    if lattice && (ok || accepted_somewhere_else(s, &mut acc)) {
                         check_lattice(s, &mut acc);
                     }
                 }
